@@ -118,6 +118,13 @@ Theorem C12_spreading_shape : forall (A : Type) ridges single (vels : list A) d 
   concat (group_velocities ridges single vels idx d) = map (fun i => nth i vels d) (group_reads ridges single idx).
 Proof. intros. split; [apply group_velocities_shape | apply group_velocities_reads]. Qed.
 
+(** subducting velocity table of the mass conserving model: an accepted table that the evaluator indexes by [ridge][point]
+    has the shape of the ridge coordinates *)
+Theorem C12_subducting_table_shape : forall ridges rows,
+  sig_ok (SigSubducting ridges rows) = true -> (1 < hd 0 rows)%nat -> ridges <> [] ->
+  rows = ridges /\ forall r i, (r < length ridges)%nat -> (i < nth r ridges 0)%nat -> (i < nth r rows 0)%nat.
+Proof. exact subducting_table_shape. Qed.
+
 (** sections of slabs and faults: the segment table is rectangular *)
 Theorem C12_section_table_rectangular : forall (K M G : Type) (L : layout K M G),
   (forall e, In e (ly_sections L) ->
@@ -128,7 +135,8 @@ Proof. exact (@table_rectangular). Qed.
 (** non-vacuity: a consistent and an inconsistent document *)
 Example C12_doc_ok_example :
   doc_ok [SigPlume 3 3 3 3 3; SigGrainsUniform 2 2 2; SigSpreading [2; 3] 5; SigSpreading [2; 3] 1; SigSection 3 2 2 2] = true /\
-  doc_ok [SigPlume 3 3 3 2 3] = false /\ doc_ok [SigSpreading [2; 3] 4] = false /\ doc_ok [SigSection 3 3 2 2] = false.
+  doc_ok [SigPlume 3 3 3 2 3] = false /\ doc_ok [SigSpreading [2; 3] 4] = false /\ doc_ok [SigSection 3 3 2 2] = false /\
+  doc_ok [SigSubducting [3] [2]] = false /\ doc_ok [SigSubducting [2; 2] [2]] = false /\ doc_ok [SigSubducting [2; 3] [2; 3]] = true /\ doc_ok [SigSubducting [2; 3] [1]] = true.
 Proof. repeat split. Qed.
 
 Print Assumptions C12_plume_reads_in_bounds.
@@ -141,3 +149,4 @@ Print Assumptions C12_fractions_lookup.
 Print Assumptions C12_spreading_reads.
 Print Assumptions C12_spreading_shape.
 Print Assumptions C12_section_table_rectangular.
+Print Assumptions C12_subducting_table_shape.
